@@ -153,3 +153,11 @@ impl<T: RecognizerReadable> ReconDecoder<T> {
         self.decoder.reset();
     }
 }
+
+/// Re-exports of internal components for external runtime-verification harnesses. Off by default.
+#[cfg(feature = "verif_hooks")]
+pub mod verif_hooks {
+    pub use crate::event_queue::EventQueue;
+    pub use crate::lanes::verif_hooks::*;
+    pub use crate::map_storage::{drop_or_take, DropOrTake, MapOps};
+}
